@@ -361,10 +361,11 @@ func runC18Case(id string, c *c18Case) {
 // on the prompt — against a device that asks the two questions and then shows the prompt, pausing
 // PauseMS before one of its reactions.  The dialogue completes under the property, so the send
 // must return it whenever every pause is shorter than the timeout in force:
-//   reuse: no callback has a next-timeout; a first send (timeout OpMS, no pause) is followed by a
-//          second send of THE SAME callback objects with timeout SecondMS > PauseMS;
-//   next:  one send with timeout OpMS; B announces NextMS > PauseMS and the device pauses right
-//          after B's answer ("the next read after this callback").
+//
+//	reuse: no callback has a next-timeout; a first send (timeout OpMS, no pause) is followed by a
+//	       second send of THE SAME callback objects with timeout SecondMS > PauseMS;
+//	next:  one send with timeout OpMS; B announces NextMS > PauseMS and the device pauses right
+//	       after B's answer ("the next read after this callback").
 type c18TO struct {
 	Variant string `json:"variant"`
 	OpMS    int    `json:"op_ms"`
